@@ -16,8 +16,8 @@ ASSUMPTIONS = [
     "tiling judged in exact arithmetic on the float values with 1e-9 relative tolerances",
     "tolerance state pinned per case: undefined, then the netlist (if any) and the die are loaded in that order, as a fresh process would",
 ]
-CASES = {"quick": 6000, "thorough": 1500000}
-MIN_CASES = {"quick": 1500, "thorough": 30000}
+CASES = {"quick": 40000, "thorough": 1500000}
+MIN_CASES = {"quick": 10000, "thorough": 30000}
 REQUIRED_CLASSES = ["valid", "invalid"]
 REQUIRED_COUNTERS = ["tiling_checked", "inputs_unchanged_checked", "invalid_rejected_checked", "same_tree_loaded_twice", "attached_netlist_with_movable_hard_modules", "entry:text", "entry:file", "entry:tree", "entry:handle",
                      "struct:empty", "struct:full_cover", "struct:ring", "struct:tjunction", "struct:border"]
